@@ -13,7 +13,7 @@ def run(pid, tier, seed):
                 "{field, variant}: ts-rs's Inflection (called in-process inside the proc-macro crate) against serde_derive's own "
                 "RenameRule::apply_to_field/apply_to_variant (its case.rs, included verbatim); identifiers on which serde itself panics are "
                 "counted and skipped. (b) call sites: every ASCII identifier of length <= 3 (+ a list of named cases) pushed through the real "
-                "expansion at the four places a rule can be written (struct rename_all, enum rename_all, variant rename_all, rename_all_fields) "
+                "expansion at the four places a rule can be written (struct rename_all, enum rename_all, variant rename_all, rename_all_fields), in the ts spelling and in serde lists behind other serde keys, "
                 "and the serde name searched in the expansion. (c) end-to-end: generated crates whose members carry unconventional identifiers, "
                 "checked by the C01 value monitor against real serde_json output. distinct_nontrivial = distinct (position, identifier class) "
                 "seen in (a) that are not 'conventional' + distinct feature signatures of (c)")
